@@ -347,6 +347,185 @@ theorem removeSingleton_wf (f : File) (dk : Option String) (h : WF f) : WF (remo
     rw [this]
     exact build_hasShape _ _
 
+theorem find?_filter_none {α} (p q : α → Bool) (l : List α) (h : l.find? p = none) : (l.filter q).find? p = none := by
+  rw [List.find?_eq_none] at h ⊢
+  intro x hx
+  exact h x (List.mem_filter.mp hx).1
+
+theorem lookup_mem_snd (ps : List (String × String)) (k n : String) (h : ps.lookup k = some n) : n ∈ ps.map (·.2) := by
+  induction ps with
+  | nil => simp at h
+  | cons p rest ih =>
+    obtain ⟨a, b⟩ := p
+    simp only [List.lookup_cons] at h
+    by_cases hk : (k == a) = true
+    · simp only [hk] at h; cases h; simp
+    · simp only [hk] at h
+      simp only [List.map_cons, List.mem_cons]
+      exact Or.inr (ih h)
+
+theorem lookup_none_not_mem (ps : List (String × String)) (k : String) (h : ps.lookup k = none) : (ps.map (·.1)).contains k = false := by
+  induction ps with
+  | nil => simp
+  | cons p rest ih =>
+    obtain ⟨a, b⟩ := p
+    simp only [List.lookup_cons] at h
+    by_cases hk : (k == a) = true
+    · simp [hk] at h
+    · simp only [hk] at h
+      have := ih h
+      simp only [List.map_cons, List.contains_cons, this, Bool.or_false]
+      simpa using hk
+
+/-- the renamed dimension objects: the first one called `n` is the old dimension whose new name is `n`
+(targets are pairwise different) -/
+theorem renamed_find (f : File) : ∀ (ps : List (String × String)), (ps.map (·.2)).Nodup → ∀ (k n : String),
+    ps.lookup k = some n → (∀ p ∈ ps, (f.dim? p.1).isSome = true) →
+    ∃ d, f.dim? k = some d ∧ (renamedDims f ps).find? (·.name == n) = some { d with name := n } := by
+  intro ps
+  induction ps with
+  | nil => intro _ k n h; simp at h
+  | cons p rest ih =>
+    intro hnd k n hl hold
+    obtain ⟨a, b⟩ := p
+    simp only [List.lookup_cons] at hl
+    have ha := hold (a, b) (by simp)
+    obtain ⟨da, hda⟩ := Option.isSome_iff_exists.mp ha
+    simp only at hda
+    simp only [List.map_cons, List.nodup_cons] at hnd
+    by_cases hk : (k == a) = true
+    · simp only [hk] at hl
+      cases hl
+      have hka : k = a := by simpa using hk
+      subst hka
+      refine ⟨da, hda, ?_⟩
+      simp [renamedDims, List.filterMap_cons, hda]
+    · simp only [hk] at hl
+      have hmem := lookup_mem_snd rest k n hl
+      have hbn : b ≠ n := by
+        intro hbn; subst hbn; exact hnd.1 hmem
+      obtain ⟨d, hd, hf⟩ := ih hnd.2 k n hl (fun p hp => hold p (List.mem_cons_of_mem _ hp))
+      refine ⟨d, hd, ?_⟩
+      simp only [renamedDims, List.filterMap_cons, hda, Option.map_some]
+      rw [List.find?_cons]
+      have : (({ da with name := b } : Dim).name == n) = false := by simpa using hbn
+      simp only [this]
+      exact hf
+
+/-- **C01 (renameDimensions, several dimensions in one call).** chains and swaps through existing names are refused,
+two dimensions cannot take one name; what is accepted relabels every variable consistently -/
+theorem renameDims_wf (f f' : File) (pairs : List (String × String)) (h : WF f)
+    (hs : renameDimsFile f pairs = .ok f') : WF f' := by
+  unfold renameDimsFile at hs
+  simp only at hs
+  generalize hps : pairs.filter (fun p => p.1 != p.2) = ps at hs
+  by_cases hnd : (ps.map (·.2)).Nodup
+  swap
+  · simp [hnd] at hs
+  by_cases hfresh : ps.any (fun p => (f.dim? p.2).isSome) = true
+  · simp [hnd, hfresh] at hs
+  by_cases hold : ps.any (fun p => (f.dim? p.1).isNone) = true
+  · simp [hnd, hfresh, hold] at hs
+  simp only [hnd, decide_true, Bool.not_true, Bool.false_eq_true, if_false, hfresh, hold, Except.ok.injEq] at hs
+  have hfresh' : ∀ p ∈ ps, f.dim? p.2 = none := by
+    intro p hp
+    have := hfresh
+    simp only [List.any_eq_true, not_exists, not_and] at this
+    have := this p hp
+    simpa using this
+  have hold' : ∀ p ∈ ps, (f.dim? p.1).isSome = true := by
+    intro p hp
+    have := hold
+    simp only [List.any_eq_true, not_exists, not_and] at this
+    have := this p hp
+    cases hq : f.dim? p.1 <;> simp_all
+  -- the key fact: a dimension of `f` is found under its new name, with its length
+  have hvars : f'.vars = f.vars.map (fun v => { v with dims := v.dims.map (renameKey ps) }) := by rw [← hs]
+  have key : ∀ k d, f.dim? k = some d → f'.dim? (renameKey ps k) = some { d with name := renameKey ps k } := by
+    intro k d hd
+    rw [← hs]
+    simp only [File.dim?, renameKey]
+    cases hl : ps.lookup k with
+    | none =>
+      simp only [Option.getD_none]
+      have hdn : d.name = k := by
+        have := List.find?_some hd
+        simpa using this
+      have hkeep := find?_filter_keep (fun x : Dim => x.name == k) (fun x => !(ps.map (·.1)).contains x.name) f.dims d hd
+        (by rw [hdn, lookup_none_not_mem ps k hl]; rfl)
+      rw [List.find?_append, hkeep]
+      simp [← hdn]
+    | some n =>
+      simp only [Option.getD_some]
+      obtain ⟨d', hd', hf⟩ := renamed_find f ps hnd k n hl hold'
+      rw [hd] at hd'
+      cases hd'
+      have hmem : (k, n) ∈ ps := by
+        have := List.lookup_eq_some_iff.mp hl
+        obtain ⟨l1, l2, hl12, _⟩ := this
+        rw [hl12]; simp
+      have hn := hfresh' (k, n) hmem
+      simp only [File.dim?] at hn
+      rw [List.find?_append, find?_filter_none _ _ _ hn]
+      simpa using hf
+  intro v hv
+  rw [hvars] at hv
+  simp only [List.mem_map] at hv
+  obtain ⟨w, hw, rfl⟩ := hv
+  obtain ⟨hwd, hws⟩ := h w hw
+  constructor
+  · intro k hk
+    simp only [List.mem_map] at hk
+    obtain ⟨k0, hk0, rfl⟩ := hk
+    obtain ⟨d, hd⟩ := Option.isSome_iff_exists.mp (hwd k0 hk0)
+    rw [key k0 d hd]; rfl
+  · have : f'.shapeOf { w with dims := w.dims.map (renameKey ps) } = f.shapeOf w := by
+      simp only [File.shapeOf, List.map_map]
+      apply List.map_congr_left
+      intro k0 hk0
+      obtain ⟨d, hd⟩ := Option.isSome_iff_exists.mp (hwd k0 hk0)
+      simp only [Function.comp, File.dimLen, key k0 d hd, hd, Option.map_some, Option.getD_some]
+    rw [this]; exact hws
+
+/-- **C01 (renameDimension).** the single-dimension form is the one-pair case of `renameDimensions` -/
+theorem renameDim_wf (f f' : File) (old new : String) (h : WF f)
+    (hs : renameDimFile f old new = .ok f') : WF f' := by
+  unfold renameDimFile at hs
+  by_cases hon : (old == new) = true
+  · simp only [hon, if_true, Except.ok.injEq] at hs; subst hs; exact h
+  simp only [hon] at hs
+  by_cases h1 : (f.dim? old).isNone = true
+  · simp [h1] at hs
+  by_cases h2 : (f.dim? new).isSome = true
+  · simp [h1, h2] at hs
+  simp only [h1, h2, Bool.false_eq_true, if_false, Except.ok.injEq] at hs
+  apply renameDims_wf f f' [(old, new)] h
+  unfold renameDimsFile
+  have hne : (old != new) = true := by simpa using hon
+  simp only [List.filter_cons, hne, if_true, List.filter_nil, List.map_cons, List.map_nil, List.nodup_cons,
+    List.not_mem_nil, not_false_eq_true, List.nodup_nil, and_self, decide_true, Bool.not_true, Bool.false_eq_true, if_false,
+    List.any_cons, List.any_nil, Bool.or_false, h1, h2]
+  rw [← hs]
+  have hdims : List.filter (fun d : Dim => ![old].contains d.name) f.dims ++ renamedDims f [(old, new)] =
+      List.filter (fun x : Dim => x.name != old) f.dims ++
+        (Option.map (fun d : Dim => ({ d with name := new } : Dim)) (f.dim? old)).toList := by
+    refine congrArg₂ (· ++ ·) ?_ ?_
+    · apply List.filter_congr
+      intro d _
+      by_cases hdn : d.name = old <;> simp [bne, hdn]
+    · cases hd : f.dim? old <;> simp [renamedDims, hd]
+  have hvars : List.map (fun v : Var => { v with dims := List.map (renameKey [(old, new)]) v.dims }) f.vars =
+      List.map (fun v : Var => { v with dims := List.map (fun k => if (k == old) = true then new else k) v.dims }) f.vars := by
+    apply List.map_congr_left
+    intro v _
+    have : List.map (renameKey [(old, new)]) v.dims = List.map (fun k => if (k == old) = true then new else k) v.dims := by
+      apply List.map_congr_left
+      intro k _
+      simp only [renameKey, List.lookup_cons, List.lookup_nil]
+      by_cases hk : (k == old) = true <;> simp [hk]
+    rw [this]
+  rw [hdims, hvars]
+
 /-- non-vacuity: a two-variable file is well-formed and stays so under mask and insertDimension -/
 example : let f : File := ⟨[⟨"t", 2, true⟩, ⟨"x", 2, false⟩],
       [⟨"A", ["t", "x"], .node [.node [.leaf (some 1), .leaf none], .node [.leaf (some 3), .leaf (some 4)]], [], true, false⟩,
@@ -356,5 +535,13 @@ example : let f : File := ⟨[⟨"t", 2, true⟩, ⟨"x", 2, false⟩],
   intro v hv
   simp only [List.mem_cons, List.not_mem_nil, or_false] at hv
   rcases hv with rfl | rfl <;> refine ⟨by decide, by decide⟩
+
+/-- non-vacuity of `renameDims_wf`: a two-dimension rename is accepted; a swap and a merge are refused -/
+example : let f : File := ⟨[⟨"t", 2, true⟩, ⟨"x", 2, false⟩],
+      [⟨"A", ["t", "x"], .node [.node [.leaf (some 1), .leaf none], .node [.leaf (some 3), .leaf (some 4)]], [], true, false⟩], []⟩
+    (∃ g, renameDimsFile f [("t", "time"), ("x", "lon")] = .ok g ∧ g.vars.map (·.dims) = [["time", "lon"]]) ∧
+    renameDimsFile f [("t", "x"), ("x", "t")] = .error "ValueError" ∧
+    renameDimsFile f [("t", "z"), ("x", "z")] = .error "ValueError" := by
+  refine ⟨⟨_, rfl, by decide⟩, rfl, rfl⟩
 
 end Props.C01
